@@ -22,7 +22,13 @@
 #ifndef FILL
 #define FILL 0
 #endif
-#define MAXEV (NEV + 2 + FILL)
+#ifndef OP1B
+#define OP1B 0          /* a second mutation applied before the run, after OP1 */
+#endif
+#ifndef FILLTIE
+#define FILLTIE 0       /* 1: the filler events all share one instant (start + 1) and have patterned priorities with ties */
+#endif
+#define MAXEV (NEV + 3 + FILL)
 
 enum { OP_NONE = 0, OP_CANCEL, OP_RESCHED, OP_REPRIO, OP_PCANCEL, OP_SCHEDULE, OP_CLEAR, OP_CANCEL_ABSENT };
 
@@ -136,7 +142,7 @@ static void mutate(int op, const char *who)
         }
         return;
     }
-    uint64_t k = sym_choice(NEV, who);
+    uint64_t k = sym_choice(FILLTIE ? (uint64_t)nev : (uint64_t)NEV, who);
     struct sev *e = &ev[k];
     if (op == OP_CANCEL_ABSENT) {
         /* cancelling a handle that is no longer pending: documented to return false */
@@ -204,10 +210,15 @@ void h_c01(void)
         sym_assume(dt >= 0.0); sym_assume(dt <= 1000.0);
         add_event(start + dt, p);
     }
-    for (int i = 0; i < FILL; i++) add_event(start + 2000.0 + i, (int64_t)i);
+    for (int i = 0; i < FILL; i++) {
+        if (FILLTIE) add_event(start + 1.0, (int64_t)((i * 3) % 5));
+        else add_event(start + 2000.0 + i, (int64_t)i);
+    }
     check_queries("after-schedule");
     mutate(OP1, "target1");
     if (OP1 != OP_NONE) check_queries("after-op1");
+    mutate(OP1B, "target1b");
+    if (OP1B != OP_NONE) check_queries("after-op1b");
     uint64_t guard = 0;
     while (cmb_event_execute_next()) {
         sym_assert(++guard <= (uint64_t)MAXEV, "no more executions than scheduled events");
